@@ -199,3 +199,73 @@ def extracted_cond(repo):
 def write_extracted_cond(repo, coq_dir):
     from vlib import translate as tr
     return tr.write_if_changed(os.path.join(coq_dir, "Gen", "Extracted_cond.v"), extracted_cond(repo))
+
+
+# ------------------------------------------------------------------------------------------------
+# Process._resume (C04, also C02): ONE iteration of its `while True` -> coq/Gen/Extracted_resume.v, bridged to one
+# unfolding of resume_loop (Kernel/Model.v) by coq/Kernel/ResumeBridge.v; obligation in Props/C04_BridgeResume.v.
+# generator.send / generator.throw are effects that may raise inside the first try (StopIteration: the generator
+# returned; BaseException: it raised): their handlers ARE translated.  The second try statement (is what was yielded a
+# pending event / a processed event / not an event?) is one whitelisted statement with three ways on.
+
+RESUME_CONS = [("FxSetActive", ""),            # self.env._active_proc = self
+               ("FxSend", ""),                 # event = self._generator.send(event._value)
+               ("FxDefuseEvent", ""),          # event._defused = True
+               ("FxCopyFailure", ""),          # exc = type(event._value)(*event._value.args)
+               ("FxSetCause", ""),             # exc.__cause__ = event._value
+               ("FxThrow", ""),                # event = self._generator.throw(exc)
+               ("FxEventNone", ""),            # event = None
+               ("FxSetOk", "(b : bool)"),      # self._ok = b
+               ("FxSetValueReturn", ""),       # self._value = e.args[0] if len(e.args) else None
+               ("FxStripTraceback", ""),       # e.__traceback__ = e.__traceback__.tb_next
+               ("FxSetValueExc", ""),          # self._value = e
+               ("FxScheduleSelf", ""),         # self.env.schedule(self)
+               ("FxAppendResume", ""),         # event.callbacks.append(self._resume)     (the yielded event is pending)
+               ("FxRaiseInvalidYield", ""),    # what was yielded has no `callbacks`: RuntimeError('Invalid yield value ...')
+               ("FxLoopAgain", ""),            # the yielded event is already processed: next iteration with it
+               ("FxSetTarget", ""),            # self._target = event
+               ("FxClearActive", "")]          # self.env._active_proc = None
+RESUME_SECOND_TRY = """try:
+    if event.callbacks is not None:
+        event.callbacks.append(self._resume)
+        break
+except AttributeError:
+    if hasattr(event, 'callbacks'):
+        raise
+    msg = f'Invalid yield value "{event}"'
+    descr = _describe_frame(self._generator.gi_frame)
+    error = RuntimeError(f'\\n{descr}{msg}')
+    error.__cause__ = None
+    raise error"""
+RESUME_FX = [("self.env._active_proc = self", "FxSetActive", []),
+             ("event = self._generator.send(event._value)", "FxSend", []),
+             ("event._defused = True", "FxDefuseEvent", []),
+             ("exc = type(event._value)(*event._value.args)", "FxCopyFailure", []),
+             ("exc.__cause__ = event._value", "FxSetCause", []),
+             ("event = self._generator.throw(exc)", "FxThrow", []),
+             ("event = None", "FxEventNone", []),
+             ("self._ok = _1", "FxSetOk", ["bool"]),
+             ("self._value = e.args[0] if len(e.args) else None", "FxSetValueReturn", []),
+             ("e.__traceback__ = e.__traceback__.tb_next", "FxStripTraceback", []),
+             ("self._value = e", "FxSetValueExc", []),
+             ("self.env.schedule(self)", "FxScheduleSelf", []),
+             ("self._target = event", "FxSetTarget", []),
+             ("self.env._active_proc = None", "FxClearActive", [])]
+_GEN_ENDS = [("StopIteration", "returned"), ("BaseException", "raised")]
+
+
+def extracted_resume(repo):
+    from vlib import translate as tr
+    spec = tr.FnSpec(os.path.join(repo, "onl", "sim", "events.py"), "Process", "_resume", "gen_Process_resume",
+                     reads=[("event._ok", "event_ok", "bool")], effects=RESUME_FX, loop_again="FxLoopAgain",
+                     raising=[("FxSend", _GEN_ENDS), ("FxThrow", _GEN_ENDS)],
+                     switches=[(RESUME_SECOND_TRY, [("target_pending", "FxAppendResume", "break"),
+                                                    ("target_invalid", "FxRaiseInvalidYield", "end"),
+                                                    (None, None, "go")])])
+    return tr.gen_module("onl/sim/events.py: Process._resume, ONE iteration of its `while True`", None, "", [], "resume_fx",
+                         RESUME_CONS, [spec])
+
+
+def write_extracted_resume(repo, coq_dir):
+    from vlib import translate as tr
+    return tr.write_if_changed(os.path.join(coq_dir, "Gen", "Extracted_resume.v"), extracted_resume(repo))
